@@ -50,3 +50,9 @@ pub fn heap_range() -> Range<Address> {
 pub fn available_range() -> Range<Address> {
     vm_layout().available_start()..vm_layout().available_end()
 }
+
+/// Verification accessor (add-only): a private `Map64`, not installed anywhere.
+#[cfg(all(feature = "mmtk_verif", target_pointer_width = "64"))]
+pub fn verif_new_map64() -> Box<dyn VMMap + Send + Sync> {
+    Box::new(map64::Map64::new())
+}
